@@ -152,6 +152,61 @@ def x25519(k, u):
     return res.to_bytes(32, "little")
 
 
+X25519_L = 2 ** 252 + 27742317777372353535851937790883648493        # prime order of the curve's main subgroup
+X25519_L_TWIST = (2 * X25519_P + 2 - 8 * X25519_L) // 4               # prime order of the twist's main subgroup
+
+
+def x25519_ladder(k, u, projective=False):
+    """[k]u on the Montgomery u-line for an arbitrary non-negative integer k (no clamping); u an integer mod p.
+    Returns the u-coordinate as an integer, 0 for the point at infinity (and for u = 0)."""
+    p, a24 = X25519_P, _X25519_A24
+    x1 = u % p
+    x2, z2, x3, z3 = 1, 0, x1, 1
+    for t in range(max(k.bit_length(), 1) - 1, -1, -1):
+        kt = (k >> t) & 1
+        if kt:
+            x2, x3, z2, z3 = x3, x2, z3, z2
+        A = x2 + z2
+        AA = A * A % p
+        B = x2 - z2
+        BB = B * B % p
+        E = AA - BB
+        C = x3 + z3
+        D = x3 - z3
+        DA = D * A % p
+        CB = C * B % p
+        x3 = (DA + CB) ** 2 % p
+        z3 = x1 * ((DA - CB) ** 2 % p) % p
+        x2 = AA * BB % p
+        z2 = E * (AA + a24 * E) % p
+        if kt:
+            x2, x3, z2, z3 = x3, x2, z3, z2
+    return (x2 % p, z2 % p) if projective else x2 * pow(z2, p - 2, p) % p
+
+
+def x25519_subgroup_order(u):
+    """the prime order of u if it lies in the main subgroup of the curve or of its twist, else None
+    ([order]u must be the point at infinity, Z = 0 - not the 2-torsion point u = 0)"""
+    for order in (X25519_L, X25519_L_TWIST):
+        if u % X25519_P != 0 and x25519_ladder(order, u, projective=True)[1] == 0:
+            return order
+    return None
+
+
+def x25519_preimage(k, target_u):
+    """a u-coordinate P with X25519(k, P) = target_u (k: 32 bytes, clamped as the function does); target_u must lie
+    in a prime-order subgroup (x25519_subgroup_order)"""
+    order = x25519_subgroup_order(target_u)
+    if order is None:
+        raise ValueError("target is not in a prime-order subgroup")
+    kn = int.from_bytes(x25519_clamp(k), "little")
+    inv = pow(kn % order, -1, order)
+    pre = x25519_ladder(inv, target_u)
+    out = pre.to_bytes(32, "little")
+    assert x25519(k, out) == (target_u % X25519_P).to_bytes(32, "little")
+    return out
+
+
 _X25519_BASE_U = (9).to_bytes(32, "little")
 
 
